@@ -67,9 +67,37 @@ def gen_doc(rng, nmax):
     return kind, lines
 
 
+# lines which carry a version hint and must be refused (for the reason in the comment)
+REFUSED_HINTS = {
+    "gfa1": ["H\tVN:Z:1.0\tTS:i:200",          # TS given before with another value
+             "S\tA\t*\tLN:Z:x",                # predefined tag with the wrong datatype
+             "S\tA\tAC GT",                     # malformed sequence
+             "H\tVN:Z:1.0\tVN:Z:1.0"],          # duplicate tag
+    "gfa2": ["H\tVN:Z:2.0\tTS:i:300",
+             "S\tA\t10\t*\txx:i:a",
+             "E\t*\tA+\tB-\t5\t1\t0\t1\t*",        # begin after end
+             "H\tVN:Z:2.0\tVN:Z:2.0"],
+}
+
+
 def cases(rng, tier, shard, nshards):
     nmax = NMAX_ALL[tier]
     while True:
+        if rng.random() < 0.2:
+            # line-by-line API: refused lines which hint at a version, among neutral lines; then
+            # content of either version.  The version must follow from the ACCEPTED lines alone.
+            hint = rng.choice(["gfa1", "gfa2"])
+            seq = ["H\tTS:i:100"] + rng.sample(NEUTRAL_LINES, rng.randint(0, 2))
+            rng.shuffle(seq)
+            seq += rng.sample(REFUSED_HINTS[hint], rng.randint(1, 2))
+            if rng.random() < 0.5:
+                seq.insert(rng.randint(1, len(seq)), rng.choice(NEUTRAL_LINES))
+            final = rng.choice(["gfa1", "gfa2"])
+            seq += {"gfa1": ["S\tZ\tACGT"], "gfa2": ["S\tZ\t4\tACGT"]}[final]
+            yield {"mode": "incremental", "lines": list(dict.fromkeys(seq)), "hint": hint, "final": final,
+                   "vlevel": rng.choice([1, 1, 2, 3, 0]), "kind": "incremental", "version": None,
+                   "dialect": "standard", "entry": "add_line"}
+            continue
         kind, lines = gen_doc(rng, nmax)
         cfg = {"version": rng.choice([None, None, "gfa1", "gfa2"]),
                "dialect": rng.choice(["standard", "standard", "standard", "rgfa"]),
@@ -110,7 +138,42 @@ def build(ctx, case, order):
     return call(ctx, "Gfa.from_file", gfapy.Gfa.from_file, fn, **kw)
 
 
+def run_incremental(case, ctx):
+    g = gfapy.Gfa(vlevel=case["vlevel"])
+    accepted = []
+    for l in case["lines"]:
+        r = call(ctx, "add_line(str)", g.add_line, l)
+        ctx.count("incremental_calls")
+        if r.ok:
+            accepted.append(l)
+        else:
+            ctx.count("incremental_refusals")
+        classes = {D.line_version_class(x) for x in accepted} - {"neutral"}
+        want = None if not classes else (classes.pop() if len(classes) == 1 else "?")
+        if want == "?":
+            return
+        vr = call(ctx, "version", lambda: g.version)
+        if not vr.ok or vr.value != want:
+            ctx.violation("version-not-from-accepted-content/%s-instead-of-%s/%s"
+                          % (vr.value if vr.ok else vr.cls(), want, "after-refusal" if not r.ok else "after-addition"),
+                          "after add_line(%r) (%s) the accepted lines are %r: version %r expected, Gfa.version=%r; calls %r"
+                          % (l, "accepted" if r.ok else "refused: " + r.cls(), accepted, want,
+                             vr.value if vr.ok else vr.cls(), case["lines"]))
+            return
+        if not r.ok and l == case["lines"][-1] and \
+                ({D.line_version_class(x) for x in accepted} - {"neutral"}) <= {case["final"]}:
+            ctx.violation("single-version-refused/%s/%s/incremental" % (case["final"], r.cls()),
+                          "the only version-specific line accepted so far would be %r, refused with %s after %r"
+                          % (l, r.cls(), case["lines"][:-1]))
+            return
+    ctx.add("kinds", "incremental/%s-hint/%s" % (case["hint"], case["final"]))
+    ctx.nontriv([case["lines"], case["vlevel"]])
+    ctx.sample({"lines": case["lines"], "config": "add_line, vlevel=%d" % case["vlevel"]})
+
+
 def run(case, ctx):
+    if case.get("mode") == "incremental":
+        return run_incremental(case, ctx)
     lines = case["lines"]
     expl = case["version"]
     v, why = D.infer_version(lines, expl)
